@@ -70,7 +70,7 @@ def run(ctx):
               "documented one; the same with max_proj just above what the first projection needs (similar pairs along one direction); diagonal variant: M diagonal with non-negative entries, or ValueError, never NaN.")
   ctx.trusted = ["Coq 8.16.1 kernel + vm_compute", "model Model/MMC.v (outer loop over abstract oracles)",
                  "oracle: numpy eigh inside the projection"]
-  ok = ctx.build_property()
+  ok = ctx.build_property(gen_needed=['Src_mmc'])
   terms, recs = [], []
   n = 60 if thorough else 14
   for i in range(n):
